@@ -123,9 +123,15 @@ Definition line_safe (c : N) : bool :=
 (* ------------------------------------------------------------------ *)
 (* Part 1c: the concatenation sites of vcr_writer                      *)
 (* ------------------------------------------------------------------ *)
-(* f-strings of the form  key: QUOTE{value}QUOTE  with the single quote (uri 278, method 279, command 195, id 221,
-   encoding 155/163/186, base64_string, status code, elapsed, http_version, check name) *)
+(* f-strings of the form  key: QUOTE{value}QUOTE  with the single quote and the value AS IT IS: id 221, status 222,
+   component mode 237, phase name 240, recorded_at 276, method 279, status code 289, elapsed 291, http_version 299,
+   base64_string, check name / status 141.  Before commit 059139b3 also uri, command and both encoding sites
+   (regression sentinel). *)
 Definition emit_sq (s : str) : str := SQ :: s ++ [SQ].
+(* _escape_single_quoted(value) = str(value).replace(QUOTE, QUOTE QUOTE)  (cassettes.py:106-108) *)
+Definition escape_sq (s : str) : str := replace_char SQ [SQ; SQ] s.
+(* uri 288, command 205, encoding 168 / 196 since 059139b3 *)
+Definition emit_sq_escaped (s : str) : str := SQ :: escape_sq s ++ [SQ].
 (* f-strings putting a header name between two double quote characters (127/132) *)
 Definition emit_dq_raw (s : str) : str := DQ :: s ++ [DQ].
 
@@ -230,6 +236,9 @@ Definition yaml_sq_decode (t : str) : option str :=
   end.
 
 Definition sq_free (s : str) : bool := forallb sq_lit s.
+(* printable, no line break: what a one-line single quoted scalar can carry once quotes are doubled *)
+Definition one_line_char (c : N) : bool := printable c && negb (is_break c).
+Definition one_line (s : str) : bool := forallb one_line_char s.
 Definition dq_raw_free (s : str) : bool := forallb dq_lit s.
 (* header values / reason phrases are latin-1 on the wire *)
 Definition is_bmp (s : str) : bool := forallb (fun c => c <? 0x10000) s.
